@@ -166,3 +166,102 @@ Proof.
   destruct (H 0%nat ltac:(lia)) as [H0 _]. change (Z.of_nat (2 * 2)) with 4%Z in H0. rewrite H0.
   cbn [rsum nth pow Nat.mul Nat.add INR]. lra.
 Qed.
+
+(** *** The model is the source (translator tie).
+    gen/Gen_c06.v is re-translated from /repo's eqsig/single.py (Signal.gen_fa_spectrum) and eqsig/fns/frequency.py
+    (generate_fa_spectrum, calc_fa_spectrum, fas2values, fas2signal) at the start of every run of this check
+    (translator/py2coq_c06.py: Python [ast], symbolic evaluation of exactly the statement shapes that are in the source,
+    temporaries substituted, fail-closed).  np.fft.fft / np.fft.ifft are NOT translated: they are parameters of the generated
+    definitions, instantiated here by the array-level reading of the defining sums of lib/Dft.v ([model_fft_re] ...: an
+    N-point transform returns bins 0 .. N-1, N = the `n=` argument, or the input length without one).
+    PROVED, for every [NumOps] instance and twiddle functions (the Q run of the correspondence and the R theorems above
+    alike) and for ALL inputs: the translation of each entry point IS the model's triple (real parts, imaginary parts,
+    frequencies) -- i.e. the transform-length rule (n / 2 ** int(np.ceil(np.log2(npts)) + p2_plus) / unpadded npts, in every
+    combination of the optional arguments, evaluated in Python's order), points = int(N / 2), the fa[range(points)] selection,
+    the `* dt` scaling and the grid np.arange(points) / (N * dt) (with N read back as len(fa) in the array-level functions);
+    the `assert len(fa) == N` statements hold; the translation of fas2values IS (fas2values_re, fas2values_im) -- np.zeros(2 len),
+    a[1:n//2] = fas[1:], a[n//2+1:] = flip(conj(fas[1:])), a /= dt, ifft, [:n] -- and fas2signal wraps the same array;
+    the defaults of the signatures are p2_plus=0, n=None, n_pad=True, n=None, p2_plus=None.
+    Guards (stated, not totalised away): an explicit n of calc_fa_spectrum is >= 0 (np.fft.fft raises for n < 1); the half
+    spectrum handed to fas2values is non-empty (np.fft.ifft raises on an empty array) and its real and imaginary parts are
+    equally long (it is one complex array).
+    A changed operand, index, sign, literal or test in those statements changes the generated term and breaks one of these
+    obligations (or is rejected by the translator), so the theorems of this file are about the code that is in /repo.
+    NOT proved (still only decided by the correspondence / the interval goals): that np.fft.fft / np.fft.ifft compute the
+    defining sums ([model_fft_*], [model_ifft_*]) -- measured per bin, not trusted --; the translator's reading of each
+    whitelisted NumPy / Python call as its list primitive (lib/NpArr.v set_slice / zeros, lib/NpList.v take / vopp, rev, tl,
+    firstn, lib/PyVal.v arange; int(a / b) = Z.quot, // = Z.div, np.ceil(np.log2(k)) = Z.log2_up k for an int k >= 1, 2 ** e
+    = Z.pow for e >= 0); the object layer (.npts = len(.values), .values, .dt, the _cached_fa flag and the
+    fa_spectrum / fa_freqs properties that call gen_fa_spectrum(), AccSignal inheriting the method), max_fa_period, and
+    binary64 rounding. *)
+From EQ Require Import lib.PyVal lib.NpArr gen.Gen_c06 proofs.P_gen_c06.
+
+Theorem C06_sig_spectrum_is_source : forall (T : Type) (ops : NumOps T) (twc tws : Z -> Z -> T) (p2 : Z) (nopt : option Z)
+  (dt : T) (a : list T),
+  gen_sig_fa (model_fft_re twc) (model_fft_im tws) p2 nopt dt a = sig_spectrum twc tws p2 nopt dt a.
+Proof. exact (@P_gen_c06.gen_sig_fa_eq). Qed.
+Theorem C06_generate_spectrum_is_source : forall (T : Type) (ops : NumOps T) (twc tws : Z -> Z -> T) (n_pad : bool)
+  (dt : T) (a : list T),
+  gen_generate_fa (model_fft_re twc) (model_fft_im tws) n_pad dt a = gen_spectrum twc tws n_pad dt a /\
+  gen_generate_fa_asserts (model_fft_re twc) n_pad dt a = true.
+Proof. intros. split; [apply P_gen_c06.gen_generate_fa_eq | apply P_gen_c06.gen_generate_fa_asserts_hold]. Qed.
+Theorem C06_calc_spectrum_is_source : forall (T : Type) (ops : NumOps T) (twc tws : Z -> Z -> T) (nopt p2opt : option Z)
+  (dt : T) (a : list T), match nopt with Some n => (0 <= n)%Z | None => True end ->
+  gen_calc_fa (model_fft_re twc) (model_fft_im tws) nopt p2opt dt a = calc_spectrum twc tws nopt p2opt dt a /\
+  gen_calc_fa_asserts (model_fft_re twc) nopt p2opt dt a = true.
+Proof. intros. split; [now apply P_gen_c06.gen_calc_fa_eq | now apply P_gen_c06.gen_calc_fa_asserts_hold]. Qed.
+Theorem C06_fas2values_is_source : forall (T : Type) (ops : NumOps T) (twc tws : Z -> Z -> T) (re im : list T) (dt : T),
+  re <> [] -> length im = length re ->
+  gen_fas2values (model_ifft_re twc tws) (model_ifft_im twc tws) re im dt
+  = (fas2values_re twc tws re im dt, fas2values_im twc tws re im dt).
+Proof. exact (@P_gen_c06.gen_fas2values_eq). Qed.
+Theorem C06_fas2signal_is_source : forall (T : Type) (ops : NumOps T) (twc tws : Z -> Z -> T) (re im : list T) (dt : T),
+  gen_fas2signal (model_ifft_re twc tws) (model_ifft_im twc tws) re im dt
+  = gen_fas2values (model_ifft_re twc tws) (model_ifft_im twc tws) re im dt.
+Proof. exact (@P_gen_c06.gen_fas2signal_eq). Qed.
+Theorem C06_defaults_are_source :
+  gen_sig_fa_default_p2_plus = 0%Z /\ gen_sig_fa_default_n = None /\ gen_generate_fa_default_n_pad = true /\
+  gen_calc_fa_default_n = None /\ gen_calc_fa_default_p2_plus = None.
+Proof. exact P_gen_c06.gen_c06_defaults. Qed.
+
+(** what the source returns, at R, through C06_definition / C06_grid / C06_inverse *)
+Theorem C06_source_definition : forall (N : nat) (p2 : Z) (nopt : option Z) dt (a : list R) k,
+  sig_nfft (Z.of_nat (length a)) p2 nopt = Z.of_nat N -> (k < points (Z.of_nat N))%nat ->
+  let s := gen_sig_fa (model_fft_re Rtwc) (model_fft_im Rtws) p2 nopt dt a in
+  nth k (fst (fst s)) 0 = rsum (fun j => nth j a 0 * cos (2 * PI * INR k * INR j / INR N)) N * dt /\
+  nth k (snd (fst s)) 0 = - rsum (fun j => nth j a 0 * sin (2 * PI * INR k * INR j / INR N)) N * dt /\
+  nth k (snd s) 0 = INR k / (IZR (Z.of_nat N) * dt) /\ length (snd s) = points (Z.of_nat N).
+Proof.
+  intros N p2 nopt dt a k HN Hk s. subst s. rewrite P_gen_c06.gen_sig_fa_eq.
+  unfold sig_spectrum, spectrum, npts_of. rewrite HN. cbn [fst snd].
+  destruct (C06_definition N dt a k Hk) as [H1 H2]. destruct (C06_lengths (Z.of_nat N) dt a) as (_ & _ & H3).
+  split; [exact H1|]. split; [exact H2|]. split; [now apply C06_grid | exact H3].
+Qed.
+Theorem C06_source_inverse : forall (M : nat) (dt : R) (a : list R), (1 <= M)%nat -> dt <> 0 ->
+  let N := (2 * M)%nat in
+  let s := gen_sig_fa (model_fft_re Rtwc) (model_fft_im Rtws) 0 (Some (Z.of_nat N)) dt a in
+  let v := gen_fas2values (model_ifft_re Rtwc Rtws) (model_ifft_im Rtwc Rtws) (fst (fst s)) (snd (fst s)) dt in
+  length (fst v) = N /\ length (snd v) = N /\ forall n, (n < N)%nat ->
+    nth n (fst v) 0 = nth n a 0 - rsum (fun j => nth j a 0) N / INR N - (-1) ^ n * (rsum (fun j => nth j a 0 * (-1) ^ j) N / INR N) /\
+    nth n (snd v) 0 = 0.
+Proof.
+  intros M dt a HM Hdt N s v. subst v s. rewrite P_gen_c06.gen_sig_fa_eq.
+  unfold sig_spectrum, spectrum, sig_nfft. cbn [fst snd].
+  destruct (C06_lengths (Z.of_nat N) dt a) as (L1 & L2 & _).
+  assert (HP : points (Z.of_nat N) = M) by (unfold points, N; rewrite Nat2Z.inj_mul, Z.mul_comm, Z.div_mul by lia; apply Nat2Z.id).
+  rewrite P_gen_c06.gen_fas2values_eq.
+  - cbn [fst snd]. exact (C06_inverse M dt a HM Hdt).
+  - intros E. apply (f_equal (@length R)) in E. unfold fas_re_R in L1. rewrite L1, HP in E. cbn in E. lia.
+  - unfold fas_re_R, fas_im_R in L1, L2. now rewrite L1, L2.
+Qed.
+
+(** the translated functions return real results on concrete inputs (non-vacuity of the source theorems; Q instance with the
+    exact twiddle table, N = 4): the record [1; 2; 4] with dt = 1/2, and the inverse of a two-bin half spectrum *)
+Example C06_source_nonvacuous :
+  gen_sig_fa (model_fft_re Qtwc) (model_fft_im Qtws) 0 None (1 # 2)%Q [1; 2; 4]%Q
+    = ([7 # 2; -3 # 2]%Q, [0; -1]%Q, [0; 1 # 2]%Q) /\
+  gen_calc_fa (model_fft_re Qtwc) (model_fft_im Qtws) (Some 4%Z) None (1 # 2)%Q [1; 2; 4]%Q
+    = ([7 # 2; -3 # 2]%Q, [0; -1]%Q, [0; 1 # 2]%Q) /\
+  gen_fas2values (model_ifft_re Qtwc Qtws) (model_ifft_im Qtwc Qtws) [1; 2]%Q [3; -1]%Q (1 # 2)%Q
+    = ([2; 1; -2; -1]%Q, [0; 0; 0; 0]%Q).
+Proof. vm_compute. repeat split; reflexivity. Qed.
